@@ -351,8 +351,13 @@ class IntroVisitor(ast.NodeVisitor):
         function_body_hash = dds_hash(self._body_lines[: last_lineno + 1])
         # The list of all the previous interactions.
         # This enforces the concept that the current call depends on previous calls.
+        # The paths loaded so far are part of it too: what they designate may flow into the arguments.
         function_inters_sig: Optional[PyHash] = dds_hash_commut(
             _fis_to_siglist(self.inters)
+            + [
+                (HK(f"dep_{p}"), self._gctx.resolved_references[p])
+                for p in sorted(set(self.load_paths))
+            ]
         )
         # Check the call for dds calls or sub_calls.
         fi_or_p = InspectFunction.inspect_call(
